@@ -147,7 +147,9 @@ class Directive(Base):
     ]
 
     @show_result
-    def __new__(cls, string: Union[str, FortranReaderBase], parent_cls=None):
+    def __new__(
+        cls, string: Union[str, FortranReaderBase], parent_cls=None, _deepcopy=False
+    ):
         """
         Create a new Directive instance.
 
@@ -155,10 +157,16 @@ class Directive(Base):
         :param string: (source of) Fortran string to parse.
         :param parent_cls: the parent class of this object.
         :type parent_cls: :py:type:`type`
+        :param bool _deepcopy: whether this instance is being created as
+            part of a copy/unpickle operation (see Base.__getnewargs__).
 
         """
         from fparser.common import readfortran
 
+        if _deepcopy:
+            # Part of a deep-copy or unpickle operation: the state is
+            # restored afterwards by the copy protocol.
+            return object.__new__(cls)
         if isinstance(string, readfortran.Comment):
             # Inline comments cannot be directives.
             if string.inline:
@@ -206,6 +214,7 @@ class Directive(Base):
         :param comment: The comment object produced by the reader
         :type comment: :py:class:`readfortran.Comment`
         """
+        self.string = comment.comment
         self.items = [comment.comment]
         self.item = comment
 
@@ -224,7 +233,7 @@ class Comment(Base):
     subclass_names = []
 
     @show_result
-    def __new__(cls, string, parent_cls=None):
+    def __new__(cls, string, parent_cls=None, _deepcopy=False):
         """
         Create a new Comment instance.
 
@@ -233,10 +242,16 @@ class Comment(Base):
         :type string: str or :py:class:`FortranReaderBase`
         :param parent_cls: the parent class of this object.
         :type parent_cls: :py:type:`type`
+        :param bool _deepcopy: whether this instance is being created as
+            part of a copy/unpickle operation (see Base.__getnewargs__).
 
         """
         from fparser.common import readfortran
 
+        if _deepcopy:
+            # Part of a deep-copy or unpickle operation: the state is
+            # restored afterwards by the copy protocol.
+            return object.__new__(cls)
         if isinstance(string, readfortran.Comment):
             # We were after a comment and we got a comment. Construct
             # one manually to avoid recursively calling this __new__
@@ -267,6 +282,7 @@ class Comment(Base):
         :param  comment: The comment object produced by the reader
         :type comment: :py:class:`readfortran.Comment`
         """
+        self.string = comment.comment
         self.items = [comment.comment]
         self.item = comment
 
